@@ -239,6 +239,42 @@ def h_save(reg, D, uni, cached):
     return h
 
 
+def h_load(reg, D, uni):
+    """Region.load hands back what the unpickler read from THIS call's file contents: two loads of one (unchanged) file give
+    two independent objects, so editing the first cannot change what the second describes"""
+    def h(c):
+        import io
+        made = []
+
+        class Pk:
+            @staticmethod
+            def load(f, *a, **k):
+                r = C08.mk(reg, 'f%d' % len(made), D, uni, False)
+                made.append(r)
+                return r
+        C08.load_through(reg, C08.mk(reg, 'z', D, uni, False))        # creates the stand-in file
+        old = reg.cPickle
+        reg.cPickle = Pk
+        reg.open = lambda *x, **k: io.BytesIO(b'')
+        try:
+            r1 = reg.Region.load(C08._STUB_MIM)
+            e1 = C08.alpha(r1, uni)
+            other = C08.mk(reg, 'o', D, uni, False)
+            r1.union(other)
+            r2 = reg.Region.load(C08._STUB_MIM)
+        finally:
+            reg.cPickle = old
+            del reg.open
+        tag = 'load[D=%d]' % D
+        c.oblige(tag + ':every load goes to the unpickler and returns its object', z3.BoolVal(len(made) == 2 and r1 is made[0] and r2 is made[1]))
+        if len(made) == 2:
+            want = C08.alpha(made[1], uni)
+            got = C08.alpha(r2, uni)
+            c.oblige(tag + ':a second load describes the file, not the edited first load', z3.And([got[u] == want[u] for u in want]))
+        return tag
+    return h
+
+
 # ------------------------------------------------------------------------------------------------
 def oracle_export(levels, D, query):
     """property-level oracle on the real code: write MOC FITS / reg / mim for a concrete region and read them back"""
@@ -388,7 +424,7 @@ def run(rep):
             rep.stats(st)
             handle(rep, res, dict(k='K-write_reg', D=D, cached=cached))
     rep.end_kernel()
-    rep.kernel('K-save', functions=[F + ':Region.save'], bounds='depth D in %s, symbolic region, empty-cache and cached states' % depths[:3],
+    rep.kernel('K-save', functions=[F + ':Region.save', F + ':Region.load'], bounds='depth D in %s, symbolic region, empty-cache and cached states' % depths[:3],
                stubs=['open -> in-memory file', 'pickle.dump -> snapshot of the object state at the time of the call'], outside=['pickle itself (library; real in the replay oracle)'])
     for D in depths[:3]:
         uni = C08.universe(D)
@@ -396,6 +432,9 @@ def run(rep):
             st, res = explore(h_save(reg, D, uni, cached), workers=1, wall_s=120)
             rep.stats(st)
             handle(rep, res, dict(k='K-save', D=D, cached=cached))
+        st, res = explore(h_load(reg, D, uni), workers=1, wall_s=120)
+        rep.stats(st)
+        handle(rep, res, dict(k='K-save', D=D, cached=False))
     rep.end_kernel()
     rep.kernel('K-replay-oracle', functions=[F + ':Region.write_fits', F + ':Region.write_reg', F + ':Region.save', F + ':Region.load'],
                bounds='concrete regions (empty, single pixel, multi-level, full base pixel, depth 1..7, corners just south of the equator) through real astropy/healpy/pickle, before and after a query')
